@@ -1192,6 +1192,8 @@ static int http_request_parse_headers(request_st * const restrict r, char * cons
         if (__builtin_expect( (vlen <= 0), 0)) {
             if (id == HTTP_HEADER_CONTENT_LENGTH)
                 return http_request_header_line_invalid(r, 400, "invalid Content-Length header -> 400");
+            if (id == HTTP_HEADER_TRANSFER_ENCODING)
+                return http_request_header_line_invalid(r, 400, "invalid Transfer-Encoding header -> 400");
             continue; /* ignore empty header */
         }
 
